@@ -1,6 +1,6 @@
 PROP = dict(
     engine="chain", harness="chain", driver="drv_chain",
-    props=["Hostd.Props.C01", "Hostd.Gen.ChainTie", "Hostd.Gen.ChainSqlTie"],
+    props=["Hostd.Props.C01", "Hostd.Props.C01G", "Hostd.Gen.ChainTie", "Hostd.Gen.ChainSqlTie"],
     pregen=[["go", "run", "./chaintable", "{repo}", "{lean}/Hostd/Gen/ChainTable.lean"],
             ["go", "run", "./sqlwhere", "{repo}", "{lean}/Hostd/Gen/ChainSql.lean"]],
     shard_extra=[dict(level="store"), dict(level="mgr")],
@@ -13,7 +13,7 @@ PROP = dict(
                nontrivial=r"^(form|reorg|append|revise)", min_ops=5, min_kinds=3,
                quick=dict(n=64, len=14, shards=8, timeout=400), thorough=dict(n=1600, len=18, shards=16, timeout=1700))],
     flag_filter=r"^c01/",
-    quick=dict(n=96, len=40, shards=8, timeout=300),
+    quick=dict(n=384, len=40, shards=16, timeout=300),
     thorough=dict(n=4000, len=60, shards=16, timeout=1700),
     nontrivial=r"^(apply|revert) .*(form1=\[\d|form2=\[\d|succ|fail|renew)", min_ops=10, min_kinds=3,
     shrink_budget=80,
